@@ -5,6 +5,7 @@ TWOQ = {"CNOT", "CZ"}
 PHS = {}
 STRAT = "flow"
 TEMPLATE <- NoTemplate
+SIMPMODE = "all"
 GAUSS = "none"
 INIT Init
 NEXT Next
